@@ -148,19 +148,41 @@ def explore(chk):
         elif h % 16 == 0:
             # a write that raises part-way through a document (a later caption positioned in px, no video size given),
             # then an ordinary set on the same writer object: nothing of the aborted document may show in the next one
-            kind = ["sami", "dfxp", "webvtt", "single", "sami"][(h // 16) % 5]
+            kind = ["sami", "dfxp", "dfxp", "single", "webvtt", "legacy", "sami"][(h // 16) % 7]
             bad = setbuild.rand_desc(rng, nlang=rng.choice([1, 2]), unbalanced=0.0, absolute=0.0, with_layout=0.0)
             caps0 = bad["langs"][0]["caps"]
             while len(caps0) < 3:
                 caps0.append(json.loads(json.dumps(caps0[-1])))
                 caps0[-1]["start"] = caps0[-2]["end"] + 1000000; caps0[-1]["end"] = caps0[-1]["start"] + 1000000
-            caps0[rng.randint(1, len(caps0) - 1)]["layout"] = {"origin": ["100px", "50px"]}
+            if (h // 16) % 2 == 0:
+                caps0[rng.randint(1, len(caps0) - 1)]["layout"] = {"origin": ["100px", "50px"]}
+            else:
+                # the writer fails in the middle of a paragraph, after a span has been opened: a style value that is a number
+                caps0[rng.randint(1, len(caps0) - 1)]["nodes"] = [["S", True, {"italics": True}], ["T", "open "], ["S", True, {"font-size": 12}], ["T", "never written"],
+                                                                  ["S", False, {"font-size": 12}], ["S", False, {"italics": True}]]
             good = setbuild.rand_desc(rng, nlang=rng.choice([1, 2]), unbalanced=0.0, absolute=0.0, with_layout=0.0)
             for c in good["langs"][0]["caps"]:
                 c["start"] += 7000000; c["end"] += 7000000
+            # the good set opens a styled span right away
+            good["langs"][0]["caps"][0]["nodes"] = [["S", True, {"italics": True}], ["T", "hello"], ["S", False, {"italics": True}], ["T", " world"]]
             sets = [bad, good]
             shared = [(kind, None)]
             ops_fixed = [("shared", 0, kind, None, 1), ("shared", 0, kind, None, 0), ("shared", 0, kind, None, 1), ("fresh", None, kind, None, 1)]
+        elif h % 16 == 8:
+            # two sets whose captions differ only in white space at the start of the text (an indented line, a leading break):
+            # whatever a writer keeps per text must not be shared between them
+            kind = ["scc", "srt", "webvtt", "microdvd", "dfxp", "sami"][(h // 16) % 6]
+            word = rng.choice(["- Hello.", "caption", "two words"])
+            def one(lead):
+                d_ = setbuild.rand_desc(rng, nlang=1, unbalanced=0.0, absolute=0.0, with_layout=0.0)
+                caps_ = d_["langs"][0]["caps"][:1]
+                caps_[0]["start"] = 5000000; caps_[0]["end"] = 7000000
+                caps_[0]["nodes"] = ([["B"]] if lead == "break" else []) + [["T", ("      " if lead == "spaces" else "") + word]]
+                d_["langs"][0]["caps"] = caps_
+                return d_
+            sets = [one(None), one(rng.choice(["spaces", "break"]))]
+            shared = [(kind, None)]
+            ops_fixed = [("shared", 0, kind, None, 0), ("shared", 0, kind, None, 1), ("fresh", None, kind, None, 1), ("shared", 0, kind, None, 0)]
         else:
             ops_fixed = None
         ops = []
